@@ -56,13 +56,15 @@ CLAIMED = {
         "READER SEES IT: start_file_aligned for a stored entry on a well-behaved sink succeeds, leaves a local header whose "
         "(patched) length fields are the true ones, and the data offset the reader's find_content computes from that header "
         "is a multiple of the alignment (alignments 2..32768), the padding being one record accepted by the writer's own "
-        "validation.  "
+        "validation; USER EXTRA DATA (C17_extra_data_verbatim): start_file_with_extra_data, write of any accepted extra data x, "
+        "end_extra_data on a well-behaved sink succeed, put x verbatim between name and data with the header's length field "
+        "counting it, the reader's find_content lands right behind it, and the record for the central directory carries x.  "
         "Correspondence: extra-data programs (local-only, central-only, both, multi-record, invalid, oversize, "
         "alignments 0/1/2/4/64/4096/65535/non-powers, large_file, after prior entries, on appended archives) compared "
         "byte for byte with the writer model; oracle: data_start % align = 0 as seen by the crate's own reader and by the "
         "strict validator, extras recovered verbatim from local and central records.",
    note="Trusted: Coq kernel, extraction+driver, harness, strictzip.py.",
-   technique="Coq proof (alignment arithmetic for all offsets and alignments, extra-data validation lemmas) + byte-exact writer-model correspondence",
+   technique="Coq proof (alignment arithmetic for all offsets and alignments, extra-data validation, aligned entry and user extra data as the reader sees them) + byte-exact writer-model correspondence",
    design="8 (C17)"),
  "C13": dict(
    text="Machine-checked Coq theorems over the writer model: opening for append re-hydrates exactly the directory the reader "
